@@ -49,6 +49,45 @@ func (x *symExec) operand(e ast.Expr) (rank int, isConst bool, cv float64, err e
 
 func (x *symExec) cond(e ast.Expr) (bool, error) {
 	switch b := unparen(e).(type) {
+	case *ast.Ident:
+		if b.Name == "true" || b.Name == "false" {
+			if _, isConst := x.info.Uses[b].(*types.Const); isConst {
+				return b.Name == "true", nil
+			}
+		}
+	case *ast.CallExpr:
+		// a boolean helper of the repository made of if/return statements over its parameters:
+		// evaluated on the values of the arguments
+		g := calleeOf(x.info, b)
+		gi := x.c.FuncOfObj(g)
+		if g == nil || gi == nil || gi.Decl.Body == nil || gi.Decl.Recv != nil || x.steps > 2000 {
+			break
+		}
+		sig := g.Type().(*types.Signature)
+		if sig.Variadic() || sig.Params().Len() != len(b.Args) || sig.Results().Len() != 1 {
+			break
+		}
+		ginfo := gi.Pkg.TypesInfo
+		h := x.c.newSymExec(ginfo, gi.Decl.Body, x.rank)
+		h.steps = x.steps + 1
+		for i, a := range b.Args {
+			p := paramObj(ginfo, gi.Decl, i)
+			v, err := x.env.fold(a)
+			if err != nil {
+				return false, err
+			}
+			if p != nil {
+				h.env.vals[p] = v
+			}
+		}
+		v, decided, err := h.boolBody(gi.Decl.Body.List)
+		if err != nil {
+			return false, err
+		}
+		if !decided {
+			return false, fmt.Errorf("helper %s does not return on this path", g.Name())
+		}
+		return v, nil
 	case *ast.UnaryExpr:
 		if b.Op == token.NOT {
 			v, err := x.cond(b.X)
@@ -115,6 +154,50 @@ func (x *symExec) cond(e ast.Expr) (bool, error) {
 		}
 	}
 	return false, fmt.Errorf("condition %s not understood", types.ExprString(e))
+}
+
+// boolBody runs a body made of if statements and returns of boolean expressions.
+func (x *symExec) boolBody(list []ast.Stmt) (val, decided bool, err error) {
+	for _, st := range list {
+		switch s := st.(type) {
+		case *ast.ReturnStmt:
+			if len(s.Results) != 1 {
+				return false, false, fmt.Errorf("helper returns %d values", len(s.Results))
+			}
+			v, err := x.cond(s.Results[0])
+			return v, true, err
+		case *ast.IfStmt:
+			if s.Init != nil {
+				return false, false, fmt.Errorf("if with an init statement in a boolean helper")
+			}
+			t, err := x.cond(s.Cond)
+			if err != nil {
+				return false, false, err
+			}
+			var v, d bool
+			switch {
+			case t:
+				v, d, err = x.boolBody(s.Body.List)
+			case s.Else != nil:
+				if blk, ok := s.Else.(*ast.BlockStmt); ok {
+					v, d, err = x.boolBody(blk.List)
+				} else {
+					v, d, err = x.boolBody([]ast.Stmt{s.Else})
+				}
+			}
+			if err != nil || d {
+				return v, d, err
+			}
+		case *ast.BlockStmt:
+			v, d, err := x.boolBody(s.List)
+			if err != nil || d {
+				return v, d, err
+			}
+		default:
+			return false, false, fmt.Errorf("statement %T in a boolean helper not understood", st)
+		}
+	}
+	return false, false, nil
 }
 
 // sameValue: two expressions denote the same value (equal constants, or input atoms of equal rank).
